@@ -17,7 +17,8 @@ Program points (a goroutine is *at* a point when the access named there is its n
                      e2  : AddInt32(&activeCallsCount, -1)
   ExitIdleMode, under idleMu (`holder`):
                      xr1/xc1 : isClosed() load, then the actuallyIdle test (r = from OnCallBegin, c = from Connect)
-                     xr2/xc2 : cc.ExitIdleMode() was called; AddInt32(+MaxInt32); actuallyIdle = false
+                     xrcb/xccb : inside the cc.ExitIdleMode() callback (the channel is leaving idle mode)
+                     xr2/xc2 : cc.ExitIdleMode() has returned; AddInt32(+MaxInt32); actuallyIdle = false
                      xr3/xc3 : isClosed() load in resetIdleTimerLocked; unlock
   handleIdleTimeout  h1  : LoadInt32(&activeCallsCount)               (isClosed() was false)
                      h2  : LoadInt32(&activeSinceLastTimerCheck)
@@ -28,7 +29,8 @@ Program points (a goroutine is *at* a point when the access named there is its n
                      t1  : idleMu.Lock()
                      t2  (holder): LoadInt32(&activeCallsCount)
                      t2u (holder): AddInt32(+MaxInt32) undo; unlock
-                     t3  (holder): LoadInt32(&activeSinceLastTimerCheck); on 0: cc.EnterIdleMode(); actuallyIdle = true; unlock
+                     t3  (holder): LoadInt32(&activeSinceLastTimerCheck); on 0 → t3cb
+                     t3cb (holder): inside the cc.EnterIdleMode() callback; then actuallyIdle = true; unlock
                      t3u (holder): AddInt32(+MaxInt32) undo; unlock
   Close              StoreInt32(&closed, 1) (the timer bookkeeping under idleMu touches nothing modelled)
 
@@ -43,7 +45,7 @@ namespace GrpcModel.Idle
 def M : Int := 2147483647
 
 /-- who holds idleMu, and where -/
-inductive Holder | free | xr1 | xr2 | xr3 | xc1 | xc2 | xc3 | t2 | t2u | t3 | t3u | r1
+inductive Holder | free | xr1 | xrcb | xr2 | xr3 | xc1 | xccb | xc2 | xc3 | t2 | t2u | t3 | t3cb | t3u | r1
 deriving DecidableEq, Repr, Inhabited
 
 structure St where
@@ -81,7 +83,7 @@ def init : St :=
 /-- goroutines that have added 1 to activeCallsCount and not (yet) subtracted it -/
 def St.counted (s : St) : Int :=
   (s.b2f + s.x0 + s.b2s + s.inCall + s.e1 + s.e2 + s.z : Nat) +
-  (if s.holder = .xr1 ∨ s.holder = .xr2 ∨ s.holder = .xr3 then 1 else 0)
+  (if s.holder = .xr1 ∨ s.holder = .xrcb ∨ s.holder = .xr2 ∨ s.holder = .xr3 then 1 else 0)
 
 inductive Rule
   | beginCheck      -- OnCallBegin: isClosed() = false                    → b1
@@ -91,12 +93,13 @@ inductive Rule
   | exitLockR       -- x0: idleMu.Lock()                                    → xr1
   | exitCheckClosedR   -- xr1: isClosed() = true; unlock                    → b2s
   | exitCheckNotIdleR  -- xr1: not closed, !actuallyIdle; unlock            → b2s
-  | exitCheckIdleR     -- xr1: not closed, actuallyIdle; cc.ExitIdleMode()  → xr2
+  | exitCheckIdleR     -- xr1: not closed, actuallyIdle; enters cc.ExitIdleMode() → xrcb
+  | exitCbDoneR        -- xrcb: cc.ExitIdleMode() returns                    → xr2
   | exitAddR        -- xr2: Add(+M); actuallyIdle = false                   → xr3
   | exitResetR      -- xr3: isClosed() load (timer re-arm); unlock          → b2s
   | beginStoreSlow  -- b2s: Store(act,1); return                            → inCall
   | connectLock     -- Connect → ExitIdleMode: idleMu.Lock()                → xc1
-  | exitCheckClosedC | exitCheckNotIdleC | exitCheckIdleC | exitAddC | exitResetC
+  | exitCheckClosedC | exitCheckNotIdleC | exitCheckIdleC | exitCbDoneC | exitAddC | exitResetC
   | endCheckOpen    -- OnCallEnd: isClosed() = false                        inCall → e1
   | endCheckClosed  -- OnCallEnd: isClosed() = true; return                 inCall → (z)
   | endStoreTime    -- e1: Store(lastCallEndTime)                           → e2
@@ -115,7 +118,8 @@ inductive Rule
   | tryLoadOk       -- t2: cnt = -M                                         → t3
   | tryUndo2        -- t2u: Add(+M); unlock → resetIdleTimer                → r0
   | tryActYes       -- t3: act = 1                                          → t3u
-  | tryEnter        -- t3: act = 0; cc.EnterIdleMode(); actuallyIdle = true; unlock
+  | tryEnter        -- t3: act = 0; enters cc.EnterIdleMode()                → t3cb
+  | tryEnterDone    -- t3cb: cc.EnterIdleMode() returns; actuallyIdle = true; unlock
   | tryUndo3        -- t3u: Add(+M); unlock → resetIdleTimer                → r0
   | resetLock       -- r0: idleMu.Lock()                                    → r1
   | resetDone       -- r1: isClosed() load (timer re-arm); unlock
@@ -143,7 +147,8 @@ def apply (s : St) : Rule → Option St
       some { s with holder := .free, b2s := s.b2s + 1 } else none
   | .exitCheckIdleR =>
     if s.holder = .xr1 ∧ s.closed = false ∧ s.idle = true then
-      some { s with holder := .xr2, exits := s.exits + 1 } else none
+      some { s with holder := .xrcb, exits := s.exits + 1 } else none
+  | .exitCbDoneR => if s.holder = .xrcb then some { s with holder := .xr2 } else none
   | .exitAddR =>
     if s.holder = .xr2 then some { s with holder := .xr3, cnt := s.cnt + M, idle := false, off := false } else none
   | .exitResetR =>
@@ -157,7 +162,8 @@ def apply (s : St) : Rule → Option St
     if s.holder = .xc1 ∧ s.closed = false ∧ s.idle = false then some { s with holder := .free } else none
   | .exitCheckIdleC =>
     if s.holder = .xc1 ∧ s.closed = false ∧ s.idle = true then
-      some { s with holder := .xc2, exits := s.exits + 1 } else none
+      some { s with holder := .xccb, exits := s.exits + 1 } else none
+  | .exitCbDoneC => if s.holder = .xccb then some { s with holder := .xc2 } else none
   | .exitAddC =>
     if s.holder = .xc2 then some { s with holder := .xc3, cnt := s.cnt + M, idle := false, off := false } else none
   | .exitResetC => if s.holder = .xc3 then some { s with holder := .free } else none
@@ -184,8 +190,8 @@ def apply (s : St) : Rule → Option St
     if s.holder = .t2u then some { s with holder := .free, cnt := s.cnt + M, off := false, r0 := s.r0 + 1 } else none
   | .tryActYes => if s.holder = .t3 ∧ s.act = true then some { s with holder := .t3u } else none
   | .tryEnter =>
-    if s.holder = .t3 ∧ s.act = false then
-      some { s with holder := .free, idle := true, enters := s.enters + 1 } else none
+    if s.holder = .t3 ∧ s.act = false then some { s with holder := .t3cb, enters := s.enters + 1 } else none
+  | .tryEnterDone => if s.holder = .t3cb then some { s with holder := .free, idle := true } else none
   | .tryUndo3 =>
     if s.holder = .t3u then some { s with holder := .free, cnt := s.cnt + M, off := false, r0 := s.r0 + 1 } else none
   | .resetLock => if s.r0 > 0 ∧ s.holder = .free then some { s with r0 := s.r0 - 1, holder := .r1 } else none
